@@ -114,10 +114,15 @@ func (r *rule) compile() error {
 
 	// segStart is true when the next character begins a path segment.
 	segStart := true
+	// prev is the previous character of the pattern when it was copied as it
+	// is, and zero otherwise.
+	var prev rune
 	for scan.Peek() != scanner.EOF {
 		ch := scan.Next()
 		atSegStart := segStart
 		segStart = string(ch) == sl
+		afterBracket := prev == '['
+		prev = 0
 		if ch == '*' {
 			if scan.Peek() == '*' {
 				// is some flavor of "**"
@@ -150,6 +155,9 @@ func (r *rule) compile() error {
 		} else if ch == '?' {
 			// "?" is any char except "/"
 			regStr += "[^" + escSL + "]"
+		} else if ch == '^' && afterBracket {
+			// negates a character class, in patterns as in regexps
+			regStr += "^"
 		} else if strings.ContainsRune(`.$+()|^{}`, ch) {
 			// Escape some regexp special chars that have no meaning
 			// in golang's filepath.Match
@@ -171,6 +179,7 @@ func (r *rule) compile() error {
 			}
 		} else {
 			regStr += string(ch)
+			prev = ch
 		}
 	}
 
